@@ -189,6 +189,13 @@ def _catalogue_cases():
     for fam, us in um.FAMILIES.items():
         for u in us:
             out.append({"t": "table", "unit": u})
+    # spellings in which a blank means multiplication; the compact string without the blank is a *different*
+    # (prefixed) unit, and both are asked in both orders within this process
+    for spaced, same_as, compact, compact_same_as in [("m s**-1", "m/s", "ms**-1", "1/millisecond"),
+                                                      ("m K", "m*K", "mK", "millikelvin"),
+                                                      ("G yr", "G*yr", "Gyr", "gigayear")]:
+        out.append({"t": "spacing", "order": [spaced, compact], "pairs": [[spaced, same_as]], "compact": [compact, compact_same_as]})
+        out.append({"t": "spacing", "order": [compact, spaced], "pairs": [[spaced, same_as]], "compact": [compact, compact_same_as]})
     return out
 
 
@@ -215,6 +222,31 @@ def catalogue(case, r):
                 r.bad(["constant-nonlinear", case["name"]], f"{got2} vs {2 * got}")
         except Exception as e:
             r.bad(["catalogue-raises", case["name"], case["spelling"]], repr(e))
+    elif t == "spacing":
+        try:
+            for sp in case["order"]:
+                osyris.units(sp)
+            for s1, s2 in case["pairs"]:
+                u1, u2 = osyris.units(s1), osyris.units(s2)
+                if not (u1 == u2):
+                    r.bad(["spellings-differ", "blank-means-multiplication"], f"units({s1!r}) = {u1!r} != units({s2!r}) = {u2!r} "
+                          f"after asking {case['order']}")
+                    return
+                a = osyris.Array(values=2.0, unit=s1)
+                f1, d1 = um.from_pint(a.unit)
+                f2, d2 = um.from_pint(osyris.units(s2))
+                if abs(f1 / f2 - 1) > 1e-12 or not um.same_dims((f1, d1), (f2, d2)):
+                    r.bad(["spellings-differ", "blank-means-multiplication"], f"Array(unit={s1!r}) has unit {a.unit}")
+                    return
+            c1, c2 = case["compact"]
+            if not (osyris.units(c1) == osyris.units(c2)):
+                r.bad(["spellings-differ", "prefixed-unit"], f"units({c1!r}) = {osyris.units(c1)!r} != units({c2!r}) = "
+                      f"{osyris.units(c2)!r} after asking {case['order']}")
+                return
+        except um.UnknownUnit:
+            pass
+        except Exception as e:
+            r.bad(["spelling-rejected", str(case["order"])], repr(e))
     elif t == "alias":
         try:
             u1, u2 = osyris.units(case["s1"]), osyris.units(case["s2"])
